@@ -184,6 +184,27 @@ def generate(ctx):
         yield 'wrappers', {'P': P.tolist(), 'b': b.tolist(), 'sp': sp.tolist(), 'lead': list(leadshape),
                            'a': float(rng.integers(-8, 9)) / 64, 'c': float(rng.integers(-20, 21)) / 2,
                            'seed': int(rng.integers(0, 2 ** 31)), 'exact': exact}
+    # every documented interpolate_fn choice through the wrappers, targets below / inside / above the source range
+    for r in range(2 if quick else 8):
+        exact = (r % 2 == 0)
+        nP = int(rng.integers(3, 7)); K = int(rng.integers(3, 7))
+        if exact:
+            P = (np.cumsum(rng.integers(1, 4, size=nP)) * 64).astype(np.float64)
+            b = uneven_sigma(rng, K)
+            top = 2.0 ** np.ceil(np.log2(P[-1]))
+            sp = np.array([[[top / 4, top / 2], [top, 4 * top]]])
+        else:
+            P = np.cumsum(rng.uniform(20, 200, size=nP))
+            inc = rng.uniform(0.2, 1.0, size=K); b = np.concatenate([[0], np.cumsum(inc)]); b = b / b[-1]; b[-1] = 1.0
+            sp = (np.array([[[0.2, 0.6], [1.1, 4.0]]]) * rng.uniform(0.9, 1.1, size=(1, 2, 2))) * P[-1]
+        yield 'wrapper_kw', {'P': P.tolist(), 'b': b.tolist(), 'sp': sp.tolist(), 'lead': [2] if r % 2 else [],
+                             'seed': int(rng.integers(0, 2 ** 31)), 'exact': exact}
+    for r in range(2 if quick else 6):
+        nH = int(rng.integers(2, 7))
+        bb = np.sort(rng.choice(np.arange(0, 33), size=nH + 1, replace=False)) / 32.0
+        aa = rng.integers(0, 9, size=nH + 1).astype(np.float64) * 16
+        yield 'approx_sigma', {'a': aa.tolist(), 'bh': bb.tolist(), 'layers': int(rng.integers(1, 8)),
+                               'sp': [None, 512.0, 1000.0, 250.0][(r + int(rng.integers(0, 4))) % 4]}
     for r in range(3 if quick else 10):
         exact = (r % 2 == 0)
         nH = int(rng.integers(2, 7)); K = int(rng.integers(2, 7))
@@ -446,6 +467,87 @@ def r_wrappers(ctx, a):
             ctx.count('roundtrip:levels-returned', int(fin.sum())); ctx.count('roundtrip:levels-missing', int((~fin).sum()))
 
 
+def interp_choices():
+    """(label, scalar routine, model command, k) for every documented extrapolation rule."""
+    import functools
+    jax, jnp, vi, sc, pe = J()
+    if 'choices' not in _cache:
+        ch = [('constant:interp', vi.interp, 0, 0), ('unlimited-linear:linear_interp_with_linear_extrap', vi.linear_interp_with_linear_extrap, 2, 0),
+              ('matrix:_dot_interp', vi._dot_interp, 1, 0)]
+        for k in (1, 2, 3):
+            ch.append((f'safe n={k}', functools.partial(vi._linear_interp_with_safe_extrap, n=k), 3, k))
+        _cache['choices'] = [(lab, fn, vi.vectorize_vertical_interpolation(fn), jax.jit(jax.vmap(fn, (0, None, None))), cmd, k)
+                             for lab, fn, cmd, k in ch]
+    return _cache['choices']
+
+
+def r_wrapper_kw(ctx, a):
+    """`interpolate_fn` is honoured by both wrappers: result == the given routine applied column-wise
+    at the documented target coordinate (sigma*sp resp. p/sp) == the corresponding model function."""
+    jax, jnp, vi, sc, pe = J()
+    P = np.asarray(a['P'], dtype=np.float64); b = np.asarray(a['b'], dtype=np.float64)
+    sp = np.asarray(a['sp'], dtype=np.float64); lead = tuple(a['lead'])
+    rng = np.random.Generator(np.random.PCG64(a['seed']))
+    pc = vi.PressureCoordinates(P); sg = sc.SigmaCoordinates(b)
+    sig = np.asarray(sg.centers); nP = len(P); K = len(sig); xy = sp.shape[-2:]
+    fP = rng.integers(-64, 65, size=lead + (nP,) + xy).astype(np.float64) / 8
+    fS = rng.integers(-64, 65, size=lead + (K,) + xy).astype(np.float64) / 8
+    for direction, wrapper, src, fld, nsrc in (('pressure->sigma', vi.interp_pressure_to_sigma, P, fP, nP),
+                                               ('sigma->pressure', vi.interp_sigma_to_pressure, sig, fS, K)):
+        outs = {}
+        for lab, fn, vfn, direct, cmd, k in interp_choices():
+            out = np.asarray(wrapper(jnp.asarray(fld), pc, sg, jnp.asarray(sp), interpolate_fn=vfn))
+            outs[lab] = out
+            for ij in np.ndindex(*xy):
+                spv = sp[(0,) + ij]
+                if direction == 'pressure->sigma':
+                    tgt = sig * spv; tgt_exact = [Fraction(float(v)) * Fraction(float(spv)) for v in sig]
+                else:
+                    tgt = P / spv; tgt_exact = [Fraction(float(v)) / Fraction(float(spv)) for v in P]
+                for t in tgt:
+                    ctx.count(f'kw:{direction}:target-' + ('below' if t < src[0] else 'above' if t > src[-1] else 'inside'))
+                for ld in np.ndindex(*lead):
+                    col = fld[ld + (slice(None),) + ij]; o = out[ld + (slice(None),) + ij]
+                    s = scale_of(src, col, tgt)
+                    want = np.asarray(direct(jnp.asarray(tgt), jnp.asarray(src), jnp.asarray(col)))
+                    same = bool(np.array_equal(np.isnan(o), np.isnan(want))) and bool(
+                        np.all(np.abs(np.nan_to_num(o) - np.nan_to_num(want)) <= 2.0 ** -36 * s))
+                    ctx.oracle(f'{direction}: the wrapper applies the interpolation function it was given ({lab.split(":")[0]})', same,
+                               {'interpolate_fn': lab, 'target': tgt.tolist(), 'wrapper': o.tolist(), 'routine': want.tolist()})
+                    if cmd == 3:
+                        cmp_opt(ctx, f'{direction} interpolate_fn={lab}', o, ctx.model.call(3, [nsrc, 0, k], [src, col, tgt_exact]), s)
+                    else:
+                        ctx.corr(f'{direction} interpolate_fn={lab}', o, ctx.model.call(cmd, [nsrc], [src, col, tgt_exact]), scale=s)
+        # default keyword == safe extrapolation with one cell
+        dflt = np.asarray(wrapper(jnp.asarray(fld), pc, sg, jnp.asarray(sp)))
+        ctx.oracle(f'{direction}: default interpolate_fn is safe extrapolation with n=1',
+                   bool(np.array_equal(dflt, outs['safe n=1'], equal_nan=True)), None)
+
+
+def r_approx_sigma(ctx, a):
+    """HybridCoordinates.to_approx_sigma_coords: `layers` and `surface_pressure` keywords are threaded."""
+    jax, jnp, vi, sc, pe = J()
+    aa = np.asarray(a['a'], dtype=np.float64); bb = np.asarray(a['bh'], dtype=np.float64); L = a['layers']
+    hc = vi.HybridCoordinates(a_boundaries=aa, b_boundaries=bb); nH = hc.layers
+    spv = 1013.25 if a['sp'] is None else a['sp']
+    kw = {} if a['sp'] is None else {'surface_pressure': a['sp']}
+    bnd = aa / spv + bb
+    xs = np.linspace(0, 1, L + 1); xp = np.linspace(0, 1, nH + 1)
+    ref = np.interp(xs, xp, bnd); ref[0] = 0.0; ref[-1] = 1.0
+    try:
+        got = np.asarray(hc.to_approx_sigma_coords(layers=L, **kw).boundaries); acc = 1
+    except ValueError:
+        got = None; acc = 0
+    ok_ref = bool(abs(ref[0]) <= 1e-8 and np.all(np.diff(ref) > 0))
+    ctx.oracle('to_approx_sigma_coords accepts iff the interpolated bounds are increasing', acc == int(ok_ref), {'ref': ref.tolist(), 'accepted': acc})
+    if got is not None:
+        ctx.oracle_close('to_approx_sigma_coords: interpolates a/sp+b (given sp, given layers) on the uniform index grid, ends set to 0 and 1',
+                         got, ref, scale=1.0)
+        m = ctx.model.call(0, [nH + 1], [xp, bnd, xs])
+        m = [Fraction(0)] + list(m[1:-1]) + [Fraction(1)] if L >= 1 else m
+        ctx.corr('to_approx_sigma_coords', got, m, scale=float(np.abs(bnd).max()) + 1)
+
+
 def r_hybrid(ctx, a):
     jax, jnp, vi, sc, pe = J()
     aa = np.asarray(a['a'], dtype=np.float64); bb = np.asarray(a['bh'], dtype=np.float64)
@@ -544,4 +646,4 @@ def r_regrid(ctx, a):
 
 
 RUNNERS = {'interp1d': r_interp1d, 'safe_missing': r_safe_missing, 'vectorized': r_vectorized, 'vinterp_pe': r_vinterp_pe,
-           'wrappers': r_wrappers, 'hybrid': r_hybrid, 'surface_pressure': r_surface_pressure, 'regrid': r_regrid}
+           'wrappers': r_wrappers, 'wrapper_kw': r_wrapper_kw, 'approx_sigma': r_approx_sigma, 'hybrid': r_hybrid, 'surface_pressure': r_surface_pressure, 'regrid': r_regrid}
